@@ -254,6 +254,37 @@ CHECKS = {
               "inputs; dyadic dx and integer data make difference quotients exact"),
         technique="TLA+ transcription of the finite-difference procedure checked by TLC; replay with a recording callback",
         design="9/C19"),
+    "C10": dict(
+        text=("Optim.tla gives the MMA sub-problem set-up operationally (asymptote offsets adapted by x1.2 / x0.7 on the sign "
+              "of (x-xold1)(xold1-xold2) and clipped to [1/asybound^2, asybound]; low/upp; alfa/beta from albefa, move and the "
+              "bounds; xold shifts) in exact rationals; TLC checks for every position of x, xold1, xold2 on a rational grid, "
+              "every reachable offset, albefa and move that the offsets stay in their band, low < alfa <= x <= beta < upp, "
+              "xmin <= alfa, beta <= xmax and the move limit, that per-signal / per-variable bounds expand to the per-variable "
+              "vector and that the design vector splits back to the signals; a variant without the xmin clause is refuted. "
+              "Runs of MMA on generated convex problems (1-3 signals incl. scalars; scalar, per-signal and per-variable bounds "
+              "and move limits; both MMA versions; several asymptote parameters; 1-2 constraints) are recorded at every "
+              "sub-problem through a patched subsolv, a wrapped mmasub and fn_callback, in fixed point, and validated by "
+              "TraceOptim.tla: enclosure and move inequalities with sound slack, iteration counter, xold bookkeeping, bound "
+              "expansion and write-back exactly. [O] per iteration the approximation reproduces g and dg at x and the "
+              "returned point satisfies the sub-problem's KKT conditions (independent residual); at the end the design is "
+              "within 2e-3 of the analytic optimum and constraints are <= 1e-6."),
+        note=(TLC_BASE + "; the interior-point algorithm itself and the convergence rate are not decided by the specification "
+              "(observation predicates); fixed-point unit 1e-5 with 2 units of slack"),
+        technique="TLA+ enclosure lemma checked by TLC; trace validation of recorded MMA runs by TLC; numeric observation predicates",
+        design="9/C10"),
+    "C17": dict(
+        text=("Optim.tla (OCStep): TLC checks in exact rationals that for any candidate value the clipped OC update lies in "
+              "[max(xmin, x-move), min(xmax, x+move)], that this interval is non-empty and within the bounds and that the step "
+              "is at most the move limit, and that the design vector splits back to the variable signals. Runs of minimize_oc "
+              "on generated separable problems sum c_i/x_i (1-3 variable signals incl. scalars, scalar and per-variable bounds, "
+              "three move limits, volume targets below/at/above the initial volume or defaulted) are recorded at every network "
+              "response and validated by TraceOptim.tla (bounds, move limit between consecutive designs, write-back to the "
+              "right signals). [O] the volume lies in the bracket implied by the optimiser's bisection tolerance (independent "
+              "bisection) whenever the target is reachable within the move limits, and the final design is within 2e-3 of the "
+              "analytic optimum."),
+        note=TLC_BASE + "; fixed-point unit 1e-5 with 2 units of slack; volume bracket and convergence are observation predicates",
+        technique="TLA+ clipping lemma checked by TLC; trace validation of recorded OC runs by TLC; numeric observation predicates",
+        design="9/C17"),
 }
 
 
